@@ -14,7 +14,10 @@ import (
 	"github.com/zeromicro/go-zero/core/logc"
 )
 
-const maxBytes = 1 << 20 // 1 MiB
+const (
+	maxBytes      = 1 << 20 // 1 MiB
+	contentLength = "Content-Length"
+)
 
 var errContentLengthExceeded = errors.New("content length exceeded")
 
@@ -28,7 +31,12 @@ func LimitCryptionHandler(limitBytes int64, key []byte) func(http.Handler) http.
 	return func(next http.Handler) http.Handler {
 		return http.HandlerFunc(func(w http.ResponseWriter, r *http.Request) {
 			cw := newCryptionResponseWriter(w)
-			defer cw.flush(r.Context(), key)
+			defer func() {
+				// a length the handler announced for the plain body does not hold for the
+				// encrypted one (no effect if the header has been written already)
+				w.Header().Del(contentLength)
+				cw.flush(r.Context(), key)
+			}()
 
 			// no body at all; an unknown length (-1, chunked transfer encoding) may still carry one
 			if r.ContentLength == 0 {
@@ -100,6 +108,8 @@ func newCryptionResponseWriter(w http.ResponseWriter) *cryptionResponseWriter {
 
 func (w *cryptionResponseWriter) Flush() {
 	if flusher, ok := w.ResponseWriter.(http.Flusher); ok {
+		// flushing writes the header: see WriteHeader
+		w.Header().Del(contentLength)
 		flusher.Flush()
 	}
 }
@@ -123,6 +133,8 @@ func (w *cryptionResponseWriter) Write(p []byte) (int, error) {
 }
 
 func (w *cryptionResponseWriter) WriteHeader(statusCode int) {
+	// the body goes out encrypted, a length announced for the plain body would be wrong
+	w.Header().Del(contentLength)
 	w.ResponseWriter.WriteHeader(statusCode)
 }
 
